@@ -24,6 +24,7 @@ type FuncResult struct {
 	UsedCons  []string
 	VC        *VC
 	Vacuity   []*Obligation
+	SkippedSlow int
 }
 
 func modeOf(c *Contract) Mode {
